@@ -24,19 +24,16 @@ theorem sysOpen_spec (o : Oracle W) (w : W) (t : FdTable) (req : OpenReq) :
         t.get fd = none ∧ t.inLimit fd = true) ∨
     (∃ w' e, sysOpen o w t req = (w', t, .error e)) := by
   unfold sysOpen
-  cases hr : o.resolve w req with
-  | mk w1 r =>
-    cases r with
-    | error e => exact .inr ⟨w1, e, rfl⟩
-    | ok ofd =>
-      simp only [allocLowest]
-      cases ha : t.openFdGe 0 { ofd := ofd, cloexec := false } (o.deny w1).2 with
-      | none => exact .inr ⟨_, .EMFILE, rfl⟩
-      | some p =>
-        obtain ⟨fd, t'⟩ := p
-        obtain ⟨_, h2, h3, h4⟩ := FdTable.openFdGe_some ha
-        subst h4
-        exact .inl ⟨_, _, fd, rfl, rfl, h2, h3⟩
+  by_cases hd : ((o.deny w).2 || !t.inLimit (t.minUnused 0)) = true
+  · rw [if_pos hd]; exact .inr ⟨_, _, rfl⟩
+  · rw [if_neg hd]
+    have hl : t.inLimit (t.minUnused 0) = true := by
+      cases h : t.inLimit (t.minUnused 0) <;> simp_all
+    cases hr : o.resolve (o.deny w).1 req with
+    | mk w1 r =>
+      cases r with
+      | error e => exact .inr ⟨w1, e, rfl⟩
+      | ok ofd => exact .inl ⟨_, _, _, rfl, rfl, FdTable.minUnused_free t 0, hl⟩
 
 /-- outcome of a successful preparation -/
 inductive PrepOK (t : FdTable) : FdTable → FdSpec → Prop
@@ -331,7 +328,7 @@ theorem undoOne_perform (o : Oracle W) (w : W) (t : FdTable) (r : Redir) (s : Sa
         rw [inLimit_congr hch.limit]; exact hw r.fd e hg
       have hcl : e.cloexec = false := by
         have := hp.target_plain; rw [isCloexec_of_get hg] at this; exact this
-      simp only [hp.original, FdTable.dup2, hsvget, FdTable.setFd, hlim, ↓reduceIte, Option.getD_some]
+      simp only [hp.original, FdTable.dup2, hsvget, hne, FdTable.setFd, hlim, ↓reduceIte, Option.getD_some]
       refine ⟨hch.limit, fun fd => ?_⟩
       simp only [FdTable.close, FdTable.get_put]
       split
